@@ -144,10 +144,37 @@ impl<'tcx> Cx<'tcx> {
             let v = si.to_bits_unchecked();
             return format!("{{\"int\":{},\"ty\":{}}}", v, esc(&ty.to_string()));
         }
+        // Small plain-data constants (e.g. `Loc::ZERO`): the evaluated bytes
+        let mut extra = String::new();
+        if let Ok(val) = c.const_.eval(tcx, env, c.span) {
+            match val {
+                ConstValue::ZeroSized => extra.push_str(",\"bytes\":[]"),
+                ConstValue::Indirect { alloc_id, offset } => {
+                    if let Ok(layout) = tcx.layout_of(env.as_query_input(ty)) {
+                        let size = layout.size.bytes() as usize;
+                        if let GlobalAlloc::Memory(alloc) = tcx.global_alloc(alloc_id) {
+                            let alloc = alloc.inner();
+                            let off = offset.bytes() as usize;
+                            if size <= 64
+                                && off + size <= alloc.len()
+                                && alloc.provenance().ptrs().is_empty()
+                            {
+                                let bytes = alloc
+                                    .inspect_with_uninit_and_ptr_outside_interpreter(off..off + size);
+                                let bs: Vec<String> = bytes.iter().map(|b| b.to_string()).collect();
+                                let _ = write!(extra, ",\"bytes\":[{}]", bs.join(","));
+                            }
+                        }
+                    }
+                }
+                _ => {}
+            }
+        }
         format!(
-            "{{\"const\":{},\"ty\":{}}}",
+            "{{\"const\":{},\"ty\":{}{}}}",
             esc(&format!("{}", c.const_)),
-            esc(&ty.to_string())
+            esc(&ty.to_string()),
+            extra
         )
     }
 
